@@ -317,7 +317,10 @@ class Interp:
     # ---- if
     def truth(self, av, node, fr):
         """True / False when statically known (constants or the obligation's configuration), else None"""
-        d = self.assume(fr.fn, node, av)
+        try:
+            d = self.assume(fr.fn, node, av, fr.module)
+        except TypeError:
+            d = self.assume(fr.fn, node, av)
         if d is not None:
             return bool(d)
         try:
@@ -960,6 +963,15 @@ class Interp:
         return self.call(f, args, kwargs, node, fr)
 
     def call(self, f, args, kwargs, node, fr):
+        n0 = len(self.events)
+        res = self._call(f, args, kwargs, node, fr)
+        for ev in self.events[n0:]:
+            if ev.kind == "call" and ev.node is node:
+                ev.extra.setdefault("ret", res)  # the value the call produced (rules identify variables by role)
+                break
+        return res
+
+    def _call(self, f, args, kwargs, node, fr):
         if isinstance(f, Func):
             name = "cryocat." + f.qual
             self.record("call", name, args, dict(kwargs), node)
